@@ -47,6 +47,32 @@ func c10(c *Ctx) {
 			c.ArgIs(m, 0, "marshals-the-status-proto", CallWith(Callee("internal/status", "RawStatusProto"), 0, st))
 		}
 	})
+	c.Ob("status-always-queued", "R3", "http2Server.writeStatus: the trailers carrying the status are handed to the writer on every path, except that an already finished stream is left alone, a failed separate header write is returned as an error, and an over-size trailer list closes the stream; 'nothing to do' (nil without queuing) is returned only for a finished stream; the user's details trailer is dropped whenever the status carries its own details", 3, func() {
+		f := c.fn(tr, "http2Server.writeStatus")
+		done := Cmp(CallRes(Callee(tr, "Stream.getState"), 0), token.EQL, ConstOfObj(c.konst(tr, "streamDone")))
+		var put ssa.CallInstruction
+		for _, ci := range callsIn(f, Callee(tr, "http2Server.finishStream")) {
+			put = ci
+		}
+		if !c.Expect(put != nil, nil, f, "trailers-queued", "the status trailers are never queued for the writer") {
+			return
+		}
+		for _, r := range returnsOf(f) {
+			if r.Block() == f.Recover || instrDominates(put, r) {
+				continue
+			}
+			if ConstNil(strip(r.Results[0])) {
+				// nil without having queued the trailers
+				c.MustFactAny(r, "silent-return-only-for-a-finished-stream-or-after-closing-it", done, Truth(ExtractOf(CallRes(Callee(tr, "controlBuffer.executeAndPut"), -1), 0), false))
+			}
+		}
+		// (a failed proto.Marshal of the details is logged and the status goes out without details: documented TODO upstream)
+		c.ErrorsPropagate(f, "writeStatus", func(call *ssa.Call) bool { return CalleeX("google.golang.org/protobuf/proto", "Marshal")(&call.Call) })
+		for _, d := range callsIn(f, BuiltinCall("delete")) {
+			c.MustFact(d, "user-details-dropped-only-when-the-status-has-details", CmpInt(LenOf(AnyV), token.GTR, 0))
+		}
+		c.Expect(len(callsIn(f, BuiltinCall("delete"))) == 1, nil, f, "user-details-trailer-dropped", "a user-supplied grpc-status-details-bin trailer is not dropped when the status carries details (the client would see two)")
+	})
 	c.Ob("status-header-names", "R6", "the status header names the server writes are among the names the client's header processing switches on (or looks up)", 3, func() {
 		f := c.fn(tr, "http2Client.operateHeaders")
 		fName := c.field(h2+"/hpack", "HeaderField", "Name")
